@@ -68,10 +68,10 @@ async def do_step(inv, step, loop, peer=None):
         return {"raw": resp.raw_data.hex(), "data": resp.response_data().hex()}
     if op == "write":
         resp = await inv._read_from_socket(inv._write_command(step[1], step[2]))
-        return {"raw": resp.raw_data.hex()}
+        return {"raw": resp.raw_data.hex(), "data": resp.response_data().hex()}
     if op == "multi":
         resp = await inv._read_from_socket(inv._write_multi_command(step[1], bytes.fromhex(step[2])))
-        return {"raw": resp.raw_data.hex()}
+        return {"raw": resp.raw_data.hex(), "data": resp.response_data().hex()}
     if op == "unitcmd":            # a command object built directly for ANOTHER unit address, run on this inverter's transport
         P = g.protocol
         tcp = isinstance(inv._protocol, P.TcpInverterProtocol)
@@ -93,6 +93,9 @@ async def do_step(inv, step, loop, peer=None):
         return {"raw": resp.raw_data.hex()}
     if op == "close":
         await inv._protocol.close()
+        return {}
+    if op == "arm_connect":        # the next TCP connection attempts end like this (prepended to the connect script)
+        loop.connect_scripts.setdefault(peer.owner if peer else HOST, [])[0:0] = list(step[1])
         return {}
     if op == "arm_send_fault":
         loop.armed_send_faults.append(step[1])
